@@ -80,8 +80,13 @@ def classify_handle_data_exit(f, p):
     if p.end != 'return':
         return None
     r = p.ret
+    decs = [c for c in p.calls() if c['decl'] in ('codec::Codec::decode_header', 'codec::Codec::decode_member')]
+    dec_cls = {'codec::Codec::decode_header': 'undecodable-header', 'codec::Codec::decode_member': 'undecodable-member-list'}
     if r[0] == 'agg' and r[3] == 'Err':
         v = q.variant_name(r[5][0])
+        if v == 'Decode' and decs:
+            # an explicit `Err(e) => return Err(Error::Decode(..))`: the error of the last decode call on the path
+            return dec_cls[decs[-1]['decl']]
         return {'DataTooBig': 'too-big', 'DataFromOurselves': 'from-ourselves', 'MalformedPacket': 'malformed-after-header'}.get(v)
     if q.path_is_error_propagation(p):
         # which `?` failed: the last Try::branch before from_residual
@@ -92,14 +97,10 @@ def classify_handle_data_exit(f, p):
         if last_br is None:
             return None
         src = last_br['args'][0]
-        if src[0] == 'call' and src[1] in calls:
-            c = calls[src[1]]
-            if c['res'] == 'core::result::Result::map_err' and c['args'][0][0] == 'call':
-                d = calls[c['args'][0][1]]
-                if d['decl'] == 'codec::Codec::decode_header':
-                    return 'undecodable-header'
-                if d['decl'] == 'codec::Codec::decode_member':
-                    return 'undecodable-member-list'
+        while src[0] == 'call' and src[1] in calls and calls[src[1]]['res'] == 'core::result::Result::map_err':
+            src = calls[src[1]]['args'][0]
+        if src[0] == 'call' and src[1] in calls and calls[src[1]]['decl'] in dec_cls:
+            return dec_cls[calls[src[1]]['decl']]
         return None
     if r[0] == 'agg' and r[3] == 'Ok':
         ap = [c for c in p.conds() if c['expr'][0] == 'call' and calls[c['expr'][1]]['res'] == 'Foca::accept_payload']
@@ -131,8 +132,9 @@ def r2_rejections(ctx, f, rep):
     for p in ctx.paths(f, hd, 'none'):
         if classify_handle_data_exit(f, p) == 'too-big':
             cs = p.conds()
-            good = len(cs) == 1 and cs[0]['expr'][0] == 'binop' and cs[0]['expr'][1] == 'Gt' and \
-                q.loads_self_field(cs[0]['expr'][3], 'config', 'max_packet_size') and \
+            nrm = q.cmp_norm(cs[0]) if len(cs) == 1 else None
+            good = nrm is not None and nrm[0] == 'gt' and q.loads_self_field(nrm[2], 'config', 'max_packet_size') and \
+                q.derives_from(p, nrm[1], lambda c: c['decl'] == 'bytes::Buf::remaining') and \
                 not any(c['decl'].startswith('codec::') for c in p.calls())
             rep.check(good, 'C17-R2', hd.nname, 'oversized input is refused before decoding anything', construct='too-big-first')
     # updates_buf is scratch: cleared before it is filled/taken
